@@ -218,9 +218,10 @@ Definition run_prog (gcf : list instr -> option (list instr)) (inp : sx) : sx :=
                   ofN (of_be (1%N :: hdr));
                   SL recvd;
                   (* the hypotheses/conclusion of the theorems on this program:
-                     wf_prog of the step list, no_premature_reuse of the gc'd
+                     wf_prog of the step list, consts_tabled (the extra hypothesis
+                     of the simulation theorem), no_premature_reuse of the gc'd
                      list (2 = not evaluated: more than 4096 wire ids) *)
-                  SL [ofB (wf_prog p steps);
+                  SL [ofB (wf_prog p steps); ofB (consts_tabled p steps);
                       if (fold_left N.max (map ct_maxid (ss_trace st)) 0 <=? 4096)%N
                       then ofB (no_premature_reuse p gsteps) else SZ 2]]
           end
